@@ -893,7 +893,10 @@ def idleTimers (w : World) (i : Nat) : World :=
 def idleNode (w : World) (i : Nat) : World :=
   if (w.node i).failed then w else
     (((idleTimers w i).node i).reg.filter (fun s => s.deadline < (idleTimers w i).now)).map (·.id)
-      |>.foldl (fun w sid => w.shutdownSession i sid) (idleTimers w i)
+      |>.foldl (fun w sid =>
+          match (w.node i).sess sid with
+          | some s => if s.deadline < w.now then w.shutdownSession i sid else w
+          | none => w) (idleTimers w i)
 
 theorem idle_eq (w : World) (ms : Int) :
     w.idle ms = (List.range w.nodes.length).foldl idleNode { w with now := w.now + ms } := rfl
@@ -949,6 +952,10 @@ theorem Live.idleNode {now : Int} {i : Nat} {sid : String} {w : World} (h : Live
     apply foldl_inv (P := Live now i sid)
     · exact hT
     · intro b sid' hmem hb
+      split
+      case h_2 => exact hb
+      split
+      case isFalse => exact hb
       apply hb.shutdown
       by_cases hk : k = i
       · left
